@@ -1,6 +1,14 @@
 #!/usr/bin/env bash
 # C17: (1) parallel access path under loom (workspace B), (2) the schema/record-set enumeration (workspace A).
 set -u
+cleanup_scratch() {
+  # scratch directories of workers that were killed (only those whose owning process is gone)
+  for d in /dev/shm/verif-*-[0-9]*; do
+    [ -d "$d" ] || continue
+    pid="${d##*-}"
+    [ -d "/proc/$pid" ] || rm -rf "$d"
+  done
+}
 TIER="$1"; shift
 cd /verif
 export CARGO_NET_OFFLINE=true
@@ -21,7 +29,7 @@ SIDE=/verif/.target/c17p-evidence.json
 rm -f "$SIDE"
 VERIF_EVIDENCE_PATH="$SIDE" VERIF_REPLAY_TAG=parallel-loom "$ST"/release/c17p --tier "$TIER" 2>&1 | grep -v 'not reached in this tier'; rc1=${PIPESTATUS[0]}
 VERIF_MERGE_EVIDENCE="parallel_path_under_loom=$SIDE" "$AT"/release/c17 --tier "$TIER"; rc2=$?
-rm -rf /dev/shm/verif-c17*-* 2>/dev/null
+cleanup_scratch
 if [ $rc1 -eq 2 ] || [ $rc2 -eq 2 ]; then exit 2; fi
 if [ $rc1 -eq 1 ] || [ $rc2 -eq 1 ]; then exit 1; fi
 exit 0
